@@ -85,6 +85,7 @@ def check_M1(ctx, facts):
                 kinds.add('other')
         return kinds
 
+    carried_snapshots = set()
     diffs = [(b, t) for b, t in calls if cname(t) == 'alloc::collections::btree::set::BTreeSet::difference']
     fields = [f['name'] for f in facts.adts[DELTA]['variants'][0]['fields']]
     pushes = []
@@ -140,19 +141,42 @@ def check_M1(ctx, facts):
                ('' if kind == want_k else (' — a node in difference(previous, current) is by construction absent from the current snapshot, '
                                            'so this lookup never succeeds and `left` is always empty: consumers never remove departed nodes'
                                            if fld == 'left' else ' — a joined node is absent from the previous snapshot')))
-        # carried state refreshed every iteration
         if fld == 'left' and kind == {'carried'}:
-            roots = sorted(referent_roots(body, op_local(gt['args'][0])))
-            ok_ref = False
-            for r in roots:
-                upd = [d for d in defs_of(r) if body.dominates(hb, d)]
-                src_ok = any(S_cur in flow.backward([op_local(s['rv']['op'])]) for b, j, s in body.assigns()
-                             if s['lhs']['l'] == r and not s['lhs']['p'] and s['rv']['k'] == 'use' and b in upd and op_local(s['rv']['op']) is not None)
-                if upd and src_ok and body.must_pass([body.succ(u)[0] if False else nxt_some_target(body, nxt[0][0], flow) for u in upd][:1], upd, [hb]):
-                    ok_ref = True
-            ctx.ob('C16.M1', 'left|carried-refreshed', ok_ref, site(body),
-                   'the carried snapshot is replaced by the current one on every iteration' if ok_ref else
-                   'the carried snapshot is not refreshed from the current snapshot on every iteration')
+            carried_snapshots = set(referent_roots(body, op_local(gt['args'][0])))
+    # both report loops and the publication run on every iteration of the watcher
+    first = nxt_some_target(body, nxt[0][0], flow)
+    pub = [b for b, t in calls if cname(t) and cname(t).startswith('tokio::sync::watch::Sender::send')]
+    pub += [b for b, t in calls if cname(t) and re.search(r'(mpsc|broadcast|flume|crossbeam_channel).*::(send|send_async|try_send)$', cname(t) or '')
+            and body.local_ty(op_local(t['args'][1])) == DELTA] if False else []
+    # whenever the carried set is replaced by the current one, both differences were computed and the change was published
+    carried_sets = set()
+    for db, dt in diffs:
+        for a in dt['args'][:2]:
+            for r in referent_roots(body, op_local(a)):
+                if any(not body.dominates(hb, d) for d in defs_of(r)) and ty_head(body.local_ty(r)) == 'alloc::collections::btree::set::BTreeSet':
+                    carried_sets.add(r)
+    upd = [b for b, j, s in body.assigns() if s['lhs']['l'] in carried_sets and not s['lhs']['p'] and body.dominates(hb, b) and b in in_loop]
+    # the carried snapshot (looked up for departed nodes) is refreshed from the current snapshot whenever the carried set is
+    if carried_snapshots:
+        upd_m = [b for b, j, s in body.assigns() if s['lhs']['l'] in carried_snapshots and not s['lhs']['p'] and body.dominates(hb, b) and b in in_loop
+                 and s['rv']['k'] == 'use' and op_local(s['rv']['op']) is not None and S_cur in flow.backward([op_local(s['rv']['op'])])]
+        good_m = bool(upd_m) and all(any(body.dominates(m, u) for m in upd_m) or body.must_pass([u], upd_m, [hb]) for u in upd)
+        ctx.ob('C16.M1', 'left|carried-refreshed', good_m, site(body),
+               'whenever the carried set is replaced, the carried snapshot is replaced by the current one in the same iteration' if good_m else
+               'the carried snapshot is not refreshed together with the carried set: a node that joined and later leaves is looked up in a snapshot that never contained it')
+    if not upd:
+        ctx.bad('C16.M1', 'carried-set|updated', site(body), 'the carried network set is never replaced by the current one: every later snapshot reports all nodes as joined again')
+    for db, dt in diffs:
+        idx = diffs.index((db, dt))
+        every = bool(upd) and body.must_pass([first], [db], upd)
+        ctx.ob('C16.M1', 'difference#%d|before-carried-update' % idx, every, site(body, dt['cs']),
+               'the carried set is only replaced after this difference was computed' if every else
+               'the carried set can be replaced by the current one without this difference having been computed: the joins / leaves of that snapshot are lost for good')
+    if pub:
+        every = bool(upd) and body.must_pass([first], pub, upd)
+        ctx.ob('C16.M1', 'publish|before-carried-update', every, site(body),
+               'the carried set is only replaced after the change was published' if every else
+               'the carried set can be replaced without the change having been published')
     for f in ('left', 'joined'):
         if f not in seen_fields:
             ctx.bad('C16.M1', f + '|push', site(body), 'no push into MembershipChange.%s found: %s nodes are never reported' % (f, 'departed' if f == 'left' else 'joined'))
